@@ -24,3 +24,5 @@ def run(chk, tier):
         L.helper_clones(chk, F, 'R09.helpers', cfg)
         from props import c15
         c15.owning_handles(chk, F, 'R09.handles', cfg)
+        from props import c08
+        c08.records_before_panic(chk, F, 'R09.recorded', cfg, 'nostd' in cfg)
